@@ -16,7 +16,7 @@ import importlib
 from olvc import extract, machine
 from olvc.oblig import Results
 from olvc.sym import Fold, Opaque, Seg, tagstr
-from olvc.tmpl import Hole
+from olvc.tmpl import Hole, Tmpl
 from suites import c10, c13
 
 PROPERTY = "C09"
@@ -168,6 +168,64 @@ def scan(x, out, bound=frozenset(), top=True):
         scan(getattr(x, f, None), out, bound, False)
 
 
+def temp_binders(x, out, runs=(), seen=None):
+    """binding sites of RESERVED names in an emitted tree: (name object, site id, enclosing
+    run variables).  Sites: walrus targets, comprehension targets, lambda parameters."""
+    seen = seen if seen is not None else set()
+    if isinstance(x, (Opaque, Seg, Fold, list, ast.AST)):
+        if (id(x), runs) in seen:
+            return
+        seen.add((id(x), runs))
+    if isinstance(x, Opaque):
+        sem = x.props.get("sem")
+        if sem:
+            for part in sem[1:]:
+                if not isinstance(part, (str, Hole)):
+                    temp_binders(part, out, runs, seen)
+        return
+    if isinstance(x, Seg):
+        for i in x.items:
+            temp_binders(i, out, runs + ((id(x), str(x.jvar)),), seen)
+        return
+    if isinstance(x, Fold):
+        temp_binders(x.init, out, runs, seen)
+        temp_binders(x.step, out, runs + ((id(x), str(x.jvar)),), seen)
+        return
+    if isinstance(x, (list, tuple)):
+        for i in x:
+            temp_binders(i, out, runs, seen)
+        return
+    if not isinstance(x, ast.AST):
+        return
+    def site(nameobj, node, kind="bind"):
+        if is_reserved(nameobj) or (isinstance(nameobj, Tmpl) and repr(nameobj).startswith("__ol_")):
+            out.append((nameobj, id(node), runs, kind))
+    if isinstance(x, ast.Name) and isinstance(getattr(x, "ctx", None), (ast.Load, type(None))):
+        site(x.id, x, "read")  # (the lowering builds many Name nodes without a ctx)
+    if isinstance(x, ast.NamedExpr) and isinstance(x.target, ast.Name):
+        site(x.target.id, x)
+    if isinstance(x, ast.comprehension) and isinstance(x.target, ast.AST):
+        for t in ast.walk(x.target):
+            if isinstance(t, ast.Name):
+                site(t.id, t)
+    if isinstance(x, ast.arg):
+        site(x.arg, x)
+    for f in x._fields:
+        if isinstance(x, ast.NamedExpr) and f == "target" and isinstance(x.target, ast.Name):
+            continue
+        temp_binders(getattr(x, f, None), out, runs, seen)
+
+
+def name_key(n):
+    return n if isinstance(n, str) else (tagstr(n.tag) if isinstance(n, Hole) else repr(n))
+
+
+def varies_with(n, jvars):
+    """does the name depend on every enclosing run variable (a new name per round)?"""
+    k = name_key(n)
+    return all(j in k for _, j in jvars)
+
+
 HARNESS_SOURCE_NAMES = {"x"}  # the variable name the C06 access harness passes in as SOURCE
 
 
@@ -185,6 +243,40 @@ def g_hygiene(R, tier):
         emitted = list(machine.EMITTED)
     finally:
         machine.EMITTED = None
+    # --- temporaries: "distinct temporaries introduced in one output never share a name"
+    per_t = {}
+    for em in emitted:
+        fn, res, c = em
+        if not any(k in fn for k in ("get_result", "wrapper", "get_assign", "get_load_name", "convert_slice", "assign_")):
+            continue
+        own = {name_key(h) for h in getattr(em, "own_names", ())}
+        sites = []
+        temp_binders(res, sites)
+        d = per_t.setdefault(fn, dict(n=0, t1=[], t2=[], t3=[]))
+        d["n"] += 1
+        reads = {}
+        for nm_, sid, runs, kind in sites:
+            if kind == "read":
+                reads.setdefault(name_key(nm_), []).append(runs)
+        for nm_, sid, runs, kind in sites:
+            if kind != "bind":
+                continue
+            k_ = name_key(nm_)
+            if runs and not varies_with(nm_, runs):
+                # the same name is bound again in every round: harmless only if nothing
+                # outside the repeated part reads it
+                stale = [j for cid, j in runs if j not in k_ and any(cid not in [c_ for c_, _ in rr] for rr in reads.get(k_, []))]
+                if stale:
+                    d["t2"].append(f"{k_} is bound in every round of the run over {stale[0]} and read outside it")
+            if "get_result" not in fn and k_ not in own:
+                d["t3"].append(f"{k_} was not created by this call")
+    for fn in sorted(per_t):
+        d = per_t[fn]
+        R.check(f"{fn}/temporaries/a-binder-in-a-repeated-part-gets-a-new-name-per-round", not d["t2"], "; ".join(sorted(set(d["t2"])))[:400], replay=dict(kind="temps"))
+        if "get_result" not in fn:
+            # functions that run several times per statement (once per target, per name):
+            # what they bind must be created by the call itself
+            R.check(f"{fn}/temporaries/binds-only-names-created-by-this-call", not d["t3"], "; ".join(sorted(set(d["t3"])))[:400], replay=dict(kind="temps"))
     per_fn = {}
     for fn, res, c in emitted:
         if "get_result" not in fn and "wrapper" not in fn and "get_assign" not in fn and "get_load_name" not in fn and "convert_slice" not in fn and "assign_" not in fn:
@@ -263,4 +355,23 @@ def replay_capture(rp):
     return RU.replay_source(src, "same-globals", names=["r"])
 
 
-REPLAY = {"capture": replay_capture, "rng": c10.replay_rng}
+TEMP_PROGRAMS = [
+    "(k, v), it = (1, 2), 3\n_, __ = self = [10, 20]\na, (b, (c, d)), e = 1, (2, (3, 4)), 5\nr = (k, v, it, _, __, self, a, b, c, d, e)\n",
+    "def outer(c):\n    c.tags = getattr(c, 'tags', ()) + ('outer',)\n    return c\ndef inner(c):\n    c.tags = getattr(c, 'tags', ()) + ('inner',)\n    return c\n"
+    "def third(c):\n    c.tags = getattr(c, 'tags', ()) + ('third',)\n    return c\n@outer\n@inner\n@third\nclass K:\n    pass\nr = K.tags\n",
+    "d = {'a': [1, 2]}\nd['a'][0] += 5\nclass H:\n    pass\nh = H()\nh.x = [1]\nh.x += [2]\nx = y = z = [0]\nr = (d, h.x, x, y, z)\n",
+    "import os.path\nfrom os import sep, path as p\nr = (os.path.sep, sep, p.sep)\n",
+    "out = []\nfor i in range(3):\n    for j in range(2):\n        if j == 1:\n            break\n        out.append((i, j))\nn = 0\nwhile n < 3:\n    n += 1\n    m = 0\n    while m < 2:\n        m += 1\nr = (out, n, m)\n",
+]
+
+
+def replay_temps(rp):
+    from suites import replay_util as RU
+    for src in TEMP_PROGRAMS:
+        rep = RU.replay_source(src, "same-globals", names=["r"])
+        if rep.get("reproduced"):
+            return rep
+    return dict(reproduced=False)
+
+
+REPLAY = {"capture": replay_capture, "rng": c10.replay_rng, "temps": replay_temps}
